@@ -347,7 +347,7 @@ def dump_function(
                 sink = Path(sink)
 
             if isinstance(sink, Path):
-                with sink.open('w') as f:
+                with sink.open('w', encoding='utf-8') as f:
                     yaml.dump(obj, f, Dumper=UserDumper)
             else:
                 yaml.dump(obj, sink, Dumper=UserDumper)
@@ -540,7 +540,7 @@ def dump_json_function(
                 sink = Path(sink)
 
             if isinstance(sink, Path):
-                with sink.open('w') as f:
+                with sink.open('w', encoding='utf-8') as f:
                     yaml.dump(
                             obj, f, Dumper=UserDumper,
                             indent=indent, allow_unicode=not ensure_ascii)
